@@ -11,6 +11,7 @@ from common import Violation
 
 TITLE = "no internal errors on accepted designs"
 LEVEL = "proof"
+DOMAINS = ['Design']
 
 
 def fails(p, strat, exc):
